@@ -593,7 +593,7 @@ DAILY_PROFILES = [  # accepted non-default profiles of the daily family (develop
 def cases_P(tier):
     hp = HOURLY_PROFILES
     out = [{"part": "P", "family": "hourly", "profile": n, "tier": tier} for n, _ in hp]
-    dp = DAILY_PROFILES if tier == "thorough" else DAILY_PROFILES[::2]
+    dp = DAILY_PROFILES if tier == "thorough" else DAILY_PROFILES[:2] + DAILY_PROFILES[2::2]
     out += [{"part": "P", "family": "daily", "profile": n, "tier": tier} for n, _ in dp]
     if tier == "thorough":
         out += [{"part": "P", "family": "billing", "profile": n, "tier": tier} for n, _ in DAILY_PROFILES[:3]]
@@ -620,8 +620,14 @@ def run_P(case):
     except Exception as exc:
         return {"rejected": f"profile not accepted by the constructor: {type(exc).__name__}"}
     frame = c02.baseline_frame(fam, 365, seed=0)
+    if name == "weekday_map":
+        # the building really follows the custom week (Friday + Saturday off): the weekday/weekend split of the custom map gets selected
+        dow = frame.index.dayofweek
+        frame["observed"] = frame["observed"] / np.where(dow >= 5, 1.2, 1.0) * np.where((dow == 4) | (dow == 5), 0.6, 1.0)
     try:
         c02.fit(fam, model, c02.make_baseline(fam, frame))
+        if name == "weekday_map" and fam == "daily" and "wd" not in model.best_combination:
+            return {"rejected": f"driver: the custom-week building did not lead to a weekday/weekend split ({model.best_combination})"}
     except Exception as exc:
         # no model, nothing stored: outside this property (whether an accepted profile can be fitted is C04's "fit returns a model or
         # raises DataSufficiencyError"); counted and listed
